@@ -191,6 +191,11 @@ def one_case(seed):
         chains = [(x, y, z) for x in deps for y in deps[x] for z in deps.get(y, [])]
         for x, y, z in rnd.sample(chains, min(4, len(chains))):
             st_ = [(True, x[0] + '*', None), (False, y, None), (False, z, None)]; parsed[render_query(st_, rnd)] = st_
+        # the direct-* axes: only direct dependencies count, at any depth (direct-descendant) or one level (direct-child)
+        tops = [d if isinstance(d, str) else d['name'] for d in model['recipes']['root'].get('depends', [])]
+        for _ in range(4):
+            x = rnd.choice(tops); axis = rnd.choice(['direct-descendant', 'direct-child', 'direct-descendant-or-self']); pat = rnd.choice(['*', 'l*', 'a*', 'q', 'p', 'lib'])
+            parsed['root/%s/%s@%s' % (x, axis, pat)] = ('direct', x, axis, pat)
         queries = sorted(parsed)
         qf = os.path.join(p.dir, 'queries.json'); json.dump(queries, open(qf, 'w'))
         r = subprocess.run([P.PY, '-c', WORKER, qf], cwd=p.dir, capture_output=True, text=True, env=p.env, timeout=120)
@@ -199,6 +204,25 @@ def one_case(seed):
         graph = {k: {'name': v['name'], 'env': v.get('env', {}), 'children': {n: (str(c[0]), c[1]) for n, c in v['children'].items()}} for k, v in out['graph'].items()}
         for q in queries:
             res = out['results'][q]
+            if isinstance(parsed[q], tuple) and parsed[q][0] == 'direct':
+                _, x, axis, pat = parsed[q]
+                rootpkg = graph[out['root']]['children'].get('root')
+                start = graph[rootpkg[0]]['children'].get(x) if rootpkg else None
+                want = set()
+                if start is not None:
+                    s0 = start[0]; todo = [s0]; seen = {s0}
+                    if axis == 'direct-descendant-or-self' and fnmatch.fnmatchcase(x, pat): want.add(s0)
+                    while todo:
+                        n_ = todo.pop()
+                        for name, (c, direct) in graph[n_]['children'].items():
+                            if not direct: continue
+                            if fnmatch.fnmatchcase(name, pat): want.add(c)
+                            if axis != 'direct-child' and c not in seen: seen.add(c); todo.append(c)
+                got = {n_ for n_, _ in res['packages']} if res['ok'] else set()
+                if got != want:
+                    return {'kind': 'result-set-differs-from-declarative-meaning', 'query': q, 'returned': sorted(pth for _, pth in res['packages']) if res['ok'] else res.get('error'),
+                            'expected_count': len(want), 'deps': {k: v.get('depends') for k, v in model['recipes'].items()}}, [q]
+                continue
             exp = expected(graph, out['root'], parsed[q])
             exp_nodes = {n for n, _ in exp}; exp_paths = {'/'.join(path) for _, path in exp}
             if not res['ok']:
